@@ -99,6 +99,14 @@ func (d *Ar) Next() (*ArEntry, error) {
 		return nil, fmt.Errorf("Malformed file entry: negative size %d", entry.Size)
 	}
 
+	if entry.Size > 0 {
+		/* make sure the member's last byte exists */
+		probe := make([]byte, 1)
+		if n, _ := d.in.ReadAt(probe, d.offset+int64(count)+entry.Size-1); n != 1 {
+			return nil, fmt.Errorf("Member %s is truncated: %d bytes announced", entry.Name, entry.Size)
+		}
+	}
+
 	entry.Data = io.NewSectionReader(d.in, d.offset+int64(count), entry.Size)
 	d.offset += int64(count) + entry.Size + (entry.Size % 2)
 
